@@ -217,7 +217,7 @@ func (e *CrashEngine) Execute(p *sim.Plan, keepLog bool) (res *sim.RunResult) {
 		if r := recover(); r != nil {
 			verifrt.RecordPanic("crashsim", r)
 			res.HarnessErr = fmt.Sprintf("panic: %v", r)
-			for _, pr := range verifrt.TakePanicsQuiesced() {
+			for _, pr := range verifrt.TakePanics() {
 				res.HarnessErr += "\n" + pr.Stack
 			}
 		}
@@ -566,7 +566,7 @@ func (e *CrashEngine) Execute(p *sim.Plan, keepLog bool) (res *sim.RunResult) {
 		rs.alive = false
 		w.Log.EndStep(fmt.Sprintf("case %d %s", c.k, c.torn), true)
 	}
-	for _, pr := range verifrt.TakePanicsQuiesced() {
+	for _, pr := range verifrt.TakePanics() {
 		x.probe("panic_observed")
 		_ = pr
 	}
